@@ -187,7 +187,7 @@ def build(thorough, rng):
             for ty in (["PULL", "SUB", "DEALER", "ROUTER", "REP"] if thorough else (["PULL", "ROUTER"] if tr == "tcp" else ["PULL"])):
                 scs.append(blocked_recv(tr, how, ty))
     for how in ["close", "term"]:
-        for ty in (["PUSH", "DEALER", "REQ"] if thorough else ["PUSH"]):
+        for ty in (["PUSH", "DEALER", "REQ"] if thorough else ["PUSH", "REQ"]):
             for tr in (["tcp", "ipc", "inproc"] if thorough else ["tcp"]):
                 scs.append(blocked_send_nopeer(how, ty, tr))
         for tr in (["tcp", "ipc"] if thorough else ["tcp"]):
